@@ -501,6 +501,7 @@ func (v *Verifier[FR, G1El, G2El, GTEl]) FoldProofsMultiPoint(digests []Commitme
 	seed := whSnark.Sum()
 	binSeed := bits.ToBinary(v.api, seed, bits.WithNbDigits(fr.Modulus().BitLen()))
 	randomNumbers[1] = v.scalarApi.FromBits(binSeed...)
+	verifTrace("fold-multi-lambda", randomNumbers[1].Limbs)
 
 	for i := 2; i < len(randomNumbers); i++ {
 		// TODO: we can also use random number from the higher level transcript
@@ -608,6 +609,7 @@ func (v *Verifier[FR, G1El, G2El, GTEl]) FoldProof(digests []Commitment[G1El], b
 	if err != nil {
 		return retP, retC, fmt.Errorf("derive gamma: %w", err)
 	}
+	verifTrace("fold-single-gamma", gamma.Limbs)
 	// gammai = [1,γ,γ²,..,γⁿ⁻¹]
 	gammai := make([]*emulated.Element[FR], nbDigests)
 	gammai[0] = v.scalarApi.One()
